@@ -7,6 +7,7 @@ import (
 	ic "github.com/libp2p/go-libp2p/core/crypto"
 	pb "github.com/libp2p/go-libp2p/core/crypto/pb"
 	"github.com/libp2p/go-libp2p/core/peer"
+	"google.golang.org/protobuf/proto"
 )
 
 func verifyOK(k ic.PubKey, m, sig []byte) bool {
@@ -324,6 +325,37 @@ func (c *ctx) keyEditUnits() []*unit {
 					judgePub(u, "pb", e, b, k2, ss)
 					return !u.stop()
 				})
+				// structural re-encodings of the PublicKey message (not reachable by single-byte edits): a parser
+				// that accepts them and yields an Equal key must still derive the SAME peer ID from it
+				if fs, err := pbParse(k.pubBytes); err == nil && len(fs) == 2 && sh == 0 {
+					var alts [][]pbField
+					unknown := []pbField{pbBytes(3, []byte("zz")), pbVarint(4, 1), pbBytes(15, nil), pbFixed32(7), pbVarint(2047, 300)}
+					for _, uf := range unknown {
+						for pos := 0; pos <= 2; pos++ {
+							alts = append(alts, pbInsert(fs, pos, uf))
+						}
+					}
+					alts = append(alts, []pbField{fs[1], fs[0]}, []pbField{fs[0], fs[0], fs[1]}, []pbField{fs[0], fs[1], fs[1]},
+						[]pbField{fs[0], fs[1], pbBytes(3, []byte("a")), pbBytes(3, []byte("b"))})
+					for ai, alt := range alts {
+						u.evals++
+						b := pbJoin(alt)
+						k2, err := ic.UnmarshalPublicKey(b)
+						if err != nil {
+							u.count("pubkey_reencoding_rejected", 1)
+							continue
+						}
+						u.count("pubkey_reencoding_accepted/"+k.typ(), 1)
+						judgePub(u, "pb-reencoded", edit{"reencode", ai, 0}, b, k2, ss)
+						// and through the envelope's way of parsing keys
+						var m pb.PublicKey
+						if proto.Unmarshal(b, &m) == nil {
+							if k3, err := ic.PublicKeyFromProto(&m); err == nil {
+								judgePub(u, "pb-reencoded/PublicKeyFromProto", edit{"reencode", ai, 0}, b, k3, ss)
+							}
+						}
+					}
+				}
 				raw, _ := k.pub.Raw()
 				byteEdits(raw, c.all, sh, nsh, func(e edit, b []byte) bool {
 					u.evals++
